@@ -723,6 +723,17 @@ impl ReloadId {
     }
 }
 
+#[cfg(assets_manager_verif)]
+impl ReloadId {
+    pub(crate) fn verif_from_raw(raw: usize) -> Self {
+        Self(raw)
+    }
+
+    pub(crate) fn verif_raw(self) -> usize {
+        self.0
+    }
+}
+
 impl Default for ReloadId {
     #[inline]
     fn default() -> Self {
